@@ -93,7 +93,7 @@ Qed.
    the end of the data, an occurrence that does not exist, division by a
    run-time zero; and `or` recovers from them *)
 Example undef_sources :
-  let en := mkEnv [1; 2; 3] 3 (fun _ => [(1, 2)]) [] None (fun _ => false) (fun _ => VUndef) false in
+  let en := mkEnv [1; 2; 3] 3 (fun _ => [(1, 2)]) [] None (fun _ => false) (fun _ => VUndef) in
   let u := ERead (IK 1 false false) (EArith Add EFilesize (EInt 5)) in
   eval en u = VUndef /\
   eval en (EOffset (PId 0) (EInt 9)) = VUndef /\
@@ -199,18 +199,17 @@ Qed.
 
 Section OfLaws.
   Variable en : env.
-  Hypothesis doc : e_fast en = false.
   Variables (set : list nat) (ak : akind) (a1 a2 : expr).
 
   Definition of_items : list value :=
     map (fun i => pat_item (e_pm en i) ak (eval en a1) (eval en a2)) set.
 
   Lemma of_none q : eval en (EOf QNone q set ak a1 a2) = VBool (negb (existsb truthy of_items)).
-  Proof. cbn [eval]. rewrite doc. unfold v_of, quantified. cbn [max_count]. apply loop_none. Qed.
+  Proof. cbn [eval]. unfold v_of, quantified. cbn [max_count]. apply loop_none. Qed.
   Lemma of_any q : eval en (EOf QAny q set ak a1 a2) = VBool (existsb truthy of_items).
-  Proof. cbn [eval]. rewrite doc. unfold v_of, quantified. cbn [max_count]. apply loop_any. Qed.
+  Proof. cbn [eval]. unfold v_of, quantified. cbn [max_count]. apply loop_any. Qed.
   Lemma of_all q : eval en (EOf QAll q set ak a1 a2) = VBool (forallb truthy of_items).
-  Proof. cbn [eval]. rewrite doc. unfold v_of, quantified. cbn [max_count]. apply loop_all. Qed.
+  Proof. cbn [eval]. unfold v_of, quantified. cbn [max_count]. apply loop_all. Qed.
 
   (* `none of S` <-> not `any of S` *)
   Lemma none_of_not_any : forall q q',
@@ -221,7 +220,7 @@ Section OfLaws.
   Lemma n_of_at_least : forall n, 0 < n ->
     eval en (EOf QExpr (EInt n) set ak a1 a2) = VBool (n <=? count_true of_items).
   Proof.
-    intros n Hn. cbn [eval]. rewrite doc. unfold v_of, quantified. cbn [max_count].
+    intros n Hn. cbn [eval]. unfold v_of, quantified. cbn [max_count].
     rewrite (loop_expr_pos QExpr n _ 0) by (auto; lia). reflexivity.
   Qed.
 
@@ -229,7 +228,7 @@ Section OfLaws.
   Lemma zero_of_is_none : forall q,
     eval en (EOf QExpr (EInt 0) set ak a1 a2) = eval en (EOf QNone q set ak a1 a2).
   Proof.
-    intros q. rewrite of_none. cbn [eval]. rewrite doc. unfold v_of, quantified. cbn [max_count].
+    intros q. rewrite of_none. cbn [eval]. unfold v_of, quantified. cbn [max_count].
     apply loop_expr_zero. auto.
   Qed.
 
@@ -284,10 +283,9 @@ Proof.
 Qed.
 (* `any of S` is `for any of S : ($)` (conditions.md) *)
 Lemma of_is_for_of : forall en q set,
-  e_fast en = false ->
   eval en (EOf QAny q set ANone (EInt 0) (EInt 0)) = eval en (EForOf QAny q set (EPat PCur ANone (EInt 0) (EInt 0))).
 Proof.
-  intros en q set doc. rewrite (of_any en doc). rewrite for_of_any. f_equal.
+  intros en q set. rewrite (of_any en). rewrite for_of_any. f_equal.
   unfold of_items. rewrite existsb_map. reflexivity.
 Qed.
 
@@ -335,7 +333,7 @@ Proof. reflexivity. Qed.
 
 (* the hypotheses of the range lemmas are satisfiable *)
 Example for_range_example :
-  let en := mkEnv [] 0 (fun _ => []) [] None (fun _ => false) (fun _ => VUndef) false in
+  let en := mkEnv [] 0 (fun _ => []) [] None (fun _ => false) (fun _ => VUndef) in
   eval en (EForRange QAll (EInt 0) 0%nat (EInt 1) (EInt 3)
              (ECmp Lt (EVar 0%nat) (EInt 4))) = VBool true.
 Proof. vm_compute. reflexivity. Qed.
@@ -348,18 +346,17 @@ Record env_ren (f : nat -> nat) (en en' : env) : Prop := {
   er_vars : e_vars en' = e_vars en;
   er_rules : e_rules en' = e_rules en;
   er_globals : e_globals en' = e_globals en;
-  er_fast : e_fast en = false /\ e_fast en' = false;
   er_pm : forall i, e_pm en' (f i) = e_pm en i;
   er_cur : e_cur en' = option_map f (e_cur en) }.
 
 Lemma env_ren_bind : forall f en en' x v, env_ren f en en' -> env_ren f (bind x v en) (bind x v en').
 Proof.
-  intros f en en' x v H. destruct H. constructor; cbn [bind e_data e_len e_vars e_rules e_globals e_fast e_pm e_cur]; try assumption.
+  intros f en en' x v H. destruct H. constructor; cbn [bind e_data e_len e_vars e_rules e_globals e_pm e_cur]; try assumption.
   rewrite er_vars0. reflexivity.
 Qed.
 Lemma env_ren_cur : forall f en en' i, env_ren f en en' -> env_ren f (with_cur i en) (with_cur (f i) en').
 Proof.
-  intros f en en' i H. destruct H. constructor; cbn [with_cur e_data e_len e_vars e_rules e_globals e_fast e_pm e_cur]; try assumption.
+  intros f en en' i H. destruct H. constructor; cbn [with_cur e_data e_len e_vars e_rules e_globals e_pm e_cur]; try assumption.
   reflexivity.
 Qed.
 
@@ -403,8 +400,7 @@ Proof.
     destruct (resolve en p); cbn [option_map]; [rewrite (er_pm _ _ _ H)|]; reflexivity.
   - (* EOf *) intros qk q IHq set ak a1 IH1 a2 IH2 en en' H. cbn [rename eval].
     rewrite (IHq _ _ H), (IH1 _ _ H), (IH2 _ _ H).
-    destruct (er_fast _ _ _ H) as [F1 F2]. rewrite F1, F2. unfold v_of.
-    rewrite map_map. f_equal. apply map_ext. intros i. rewrite (er_pm _ _ _ H). reflexivity.
+    unfold v_of. rewrite map_map. f_equal. apply map_ext. intros i. rewrite (er_pm _ _ _ H). reflexivity.
   - (* EOfB *) intros qk q IHq items IHi en en' H. cbn [rename eval].
     rewrite (IHq _ _ H), (IHi _ _ H). reflexivity.
   - (* EForOf *) intros qk q IHq set body IHb en en' H. cbn [rename eval].
@@ -427,38 +423,26 @@ Qed.
 (* the hypothesis is satisfiable: shifting every pattern identifier by one *)
 Example env_ren_example :
   let pm := fun i : nat => match i with 0%nat => [(0, 2)] | _ => [] end in
-  let en := mkEnv [97; 98] 2 pm [] (Some 0%nat) (fun _ => false) (fun _ => VUndef) false in
-  let en' := mkEnv [97; 98] 2 (fun i => pm (Nat.pred i)) [] (Some 1%nat) (fun _ => false) (fun _ => VUndef) false in
+  let en := mkEnv [97; 98] 2 pm [] (Some 0%nat) (fun _ => false) (fun _ => VUndef) in
+  let en' := mkEnv [97; 98] 2 (fun i => pm (Nat.pred i)) [] (Some 1%nat) (fun _ => false) (fun _ => VUndef) in
   env_ren S en en' /\
   eval en' (rename S (EPat (PId 0) AAt (EInt 0) (EInt 0))) = VBool true.
-Proof. cbn zeta. split; [constructor; cbn; try reflexivity; split; reflexivity | reflexivity]. Qed.
+Proof. cbn zeta. split; [constructor; cbn; reflexivity | reflexivity]. Qed.
 
-(* with the model of the implementation's fast path switched on, renaming
-   invariance fails: the same `0 of ($a, $b)` is true when the two
-   identifiers are consecutive and means "none" when they are not
-   (finding 6 / 11) *)
-Lemma id_renaming_invariance_fast_refuted :
-  exists f e en en',
-    e_fast en = true /\ e_fast en' = true /\
-    (forall i, e_pm en' (f i) = e_pm en i) /\
-    eval en' (rename f e) <> eval en e.
+(* a negative quantifier (only possible at run time) behaves like `any` *)
+Lemma loop_expr_neg : forall qk m items c,
+  qk = QExpr \/ qk = QPct -> m < 0 -> 0 <= c ->
+  loop_q qk m c false items = VBool (existsb truthy items).
 Proof.
-  exists (fun i => (2 * i)%nat), (EOf QExpr (EInt 0) [0%nat; 1%nat] ANone (EInt 0) (EInt 0)).
-  exists (mkEnv [] 0 (fun i => [(0, 1)]) [] None (fun _ => false) (fun _ => VUndef) true).
-  exists (mkEnv [] 0 (fun i => [(0, 1)]) [] None (fun _ => false) (fun _ => VUndef) true).
-  repeat split. vm_compute. discriminate.
+  intros qk m items. induction items as [|v t IH]; intros c Hq Hm Hc.
+  - destruct Hq; subst qk; cbn [loop_q existsb]; f_equal; apply Z.eqb_neq; lia.
+  - assert (E : loop_q qk m c false (v :: t) =
+                if truthy v then
+                  if m <=? c + 1 then VBool (negb (m =? 0)) else loop_q qk m (c + 1) false t
+                else loop_q qk m c false t)
+      by (destruct Hq; subst qk; reflexivity).
+    rewrite E. cbn [existsb]. destruct (truthy v).
+    + replace (m <=? c + 1) with true by (symmetry; apply Z.leb_le; lia).
+      replace (m =? 0) with false by (symmetry; apply Z.eqb_neq; lia). reflexivity.
+    + cbn [orb]. apply IH; auto.
 Qed.
-
-(* the fast path agrees with the documented meaning exactly when N > 0 *)
-Lemma of_fast_path_equiv_loop : forall fast qv set ak items z,
-  qv = VInt z -> 0 < z ->
-  v_of fast QExpr qv set ak items = v_of false QExpr qv set ak items.
-Proof.
-  intros fast qv set ak items z -> Hz. unfold v_of. destruct fast; [|reflexivity].
-  destruct ak; try reflexivity.
-  replace (z <=? 0) with false by (symmetry; apply Z.leb_gt; exact Hz).
-  rewrite andb_false_r. reflexivity.
-Qed.
-Lemma of_fast_path_equiv_loop_refuted :
-  exists set items, v_of true QExpr (VInt 0) set ANone items <> v_of false QExpr (VInt 0) set ANone items.
-Proof. exists [0%nat; 1%nat], [VBool true; VBool false]. vm_compute. discriminate. Qed.
